@@ -1,5 +1,6 @@
 """C04 - every reported source range is exact, well-formed and properly nested."""
 import re
+import json
 from absint import *
 from domain import *
 from mirlib import callee_info
@@ -49,6 +50,8 @@ def run(ctx, rep):
                     okk = False
                     if adt == "ast::Range" and (pth == "validation::check_method_args" or pth.startswith("validation::check_method_args::{closure")):
                         okk = True  # checked by the C07 table: Range{start: p.clone(), end: p.clone()} with one p
+                    elif adt == "ast::Range" and empty_range_idiom(f["body"], s):
+                        okk = True  # structurally the idiom: both operands are clones of one and the same place
                     rep.check(okk, "P3", "C04|P3|%s|%s" % (pth, adt), cfg.where(f, s),
                               "%s is built outside its constructor in %s: only the empty-range idiom {start: p.clone(), end: p.clone()} of check_method_args is known to keep start <= end" % (adt, pth))
     rep.floor("P3", "Position / Range aggregates", n, 3)
@@ -100,6 +103,33 @@ def parse_error_ranges(ctx, rep, prop):
     for var, w in sorted(want.items()):
         rep.check(got.get(var) == w, "G1", "%s|G1|%s" % (prop, var), cfg.where(ff), "ParseError::%s must be reported on Range::new(lookup, %s, %s) - the offending token's own boundaries / the failure location; extracted %r" % (var, w[0], w[1], got.get(var)),
                   sample={"variant": var, "range": repr(got.get(var))})
+
+
+def empty_range_idiom(body, stmt):
+    """Range { start: <P>.clone(), end: <P>.clone() } with one place P (an empty range at an existing position)"""
+    ops = stmt["rv"].get("ops") or []
+    if len(ops) != 2 or any(o["k"] not in ("move", "copy") or o["place"]["p"] for o in ops):
+        return False
+    srcs = []
+    for o in ops:
+        l = o["place"]["l"]
+        src = None
+        for b in body["blocks"]:
+            t = b["term"]
+            if t["k"] == "call" and t["dest"]["l"] == l and not t["dest"]["p"]:
+                ci = callee_info(t)
+                nm = (ci.get("resolved") or ci["def"]) if ci else ""
+                if nm.endswith("Clone>::clone") or nm.endswith("::clone"):
+                    a = t["args"][0]
+                    if a["k"] in ("move", "copy") and not a["place"]["p"]:
+                        # the argument is a reference temp: find `tmp = &place`
+                        for b2 in body["blocks"]:
+                            for s2 in b2["stmts"]:
+                                if s2["k"] == "assign" and s2["lhs"]["l"] == a["place"]["l"] and not s2["lhs"]["p"] and s2["rv"]["k"] == "ref":
+                                    pl = s2["rv"]["place"]
+                                    src = (pl["l"], json.dumps([dict((k, v) for k, v in e.items() if k != "ty") if isinstance(e, dict) else e for e in pl["p"]], sort_keys=True))
+        srcs.append(src)
+    return srcs[0] is not None and srcs[0] == srcs[1]
 
 
 def position_rules(ctx, rep, prop):
